@@ -7,4 +7,5 @@ def main : IO UInt32 :=
     match family with
     | "c12" => C12.check params lines
     | "c12fork" => C01.check params lines
+    | "c12nest" => C12.checkNest params lines
     | _ => { bad := [s!"unknown family {family}"] })
